@@ -143,7 +143,12 @@ func init() {
 			}
 		}
 		pa, pb := unhex(a[1]), unhex(a[2])
-		return c08Val(rd.ReadValue(pa)) + ";" + c08Val(rd.ReadValue(pb)) + ";" + c08Val(rd.ReadValue(pa))
+		// all three results are HELD and rendered only at the end: a value handed to the caller must not be overwritten by a
+		// later call (seeded change C08-13: concatenation buffer taken from a sync.Pool and returned to it)
+		va := rd.ReadValue(pa)
+		vb := rd.ReadValue(pb)
+		va2 := rd.ReadValue(pa)
+		return c08Val(va) + ";" + c08Val(vb) + ";" + c08Val(va2)
 	})
 	register("ReadValue", func(a []string) string {
 		rd := pgdump.NewTOASTReader()
